@@ -21,7 +21,7 @@ DRIVER = os.path.join(VERIF, 'ocaml', 'driver')
 
 # ---------------------------------------------------------------- error enum
 E = dict(VSE=1, NIE=2, VOTE=3, CAND=4, PARSE=5, VALUE=6, INDEX=7, KEY=8,
-         TYPE=9, OTHER=10, TIMEOUT=11, ZERODIV=12, STOP=13, STATS=14, ATTR=15, FUEL=99)
+         TYPE=9, OTHER=10, TIMEOUT=11, ZERODIV=12, STOP=13, STATS=14, ATTR=15, RUNTIME=16, FUEL=99)
 E_NAME = {v: k for k, v in E.items()}
 
 
@@ -53,6 +53,8 @@ def classify_exc(exc):
         return E['CAND']
     if 'ParseError' in name:
         return E['PARSE']
+    if isinstance(exc, RuntimeError) and not isinstance(exc, NotImplementedError):
+        return E['RUNTIME']
     if isinstance(exc, StopIteration):
         return E['STOP']
     if name == 'StatisticsError':
